@@ -703,6 +703,11 @@ func normalise(mod []*packages.Package, fset *token.FileSet, known map[string]bo
 					out.WriteString(outer.String())
 					out.WriteString(text)
 					tail = "}; " + strings.Join(ls, ", ") + " := " + strings.Join(resNames, ", ")
+					for _, l := range as.Lhs {
+						if id, ok := l.(*ast.Ident); ok && id.Name != "_" {
+							tail += "; _ = " + id.Name // its only use may be a test that threading removes
+						}
+					}
 					// blank identifiers on the left of := are legal only with at least one new name; keep as written
 				case "return":
 					tail = "return " + strings.Join(resNames, ", ") + " }"
@@ -725,6 +730,10 @@ func normalise(mod []*packages.Package, fset *token.FileSet, known map[string]bo
 				}
 				out.WriteString(tail)
 				siteEdits[s.file] = append(siteEdits[s.file], textEdit{off(s.stmt.Pos()), off(s.stmt.End()), out.String()})
+				if plan != nil && len(plan.failing) > 0 && plan.allDecided {
+					// every exit was sent to its side of the caller's test: the test is dead
+					siteEdits[s.file] = append(siteEdits[s.file], textEdit{off(plan.ifs.Pos()), off(plan.ifs.End()), "/* test decided by the inlined exits */"})
+				}
 			}
 			if !ok {
 				note("helper " + cd.obj.Name() + " not inlined: unsupported call form")
@@ -987,6 +996,9 @@ func readOnlyParam(info *types.Info, fd *ast.FuncDecl, pv *types.Var) bool {
 type threadPlan struct {
 	ifs     *ast.IfStmt
 	failing map[*ast.ReturnStmt]bool
+	// every exit of the helper decides the test: the exits that are not failing
+	// make it false, so the caller's test itself is dead after threading
+	allDecided bool
 }
 
 func planThreading(info *types.Info, s *inlineSite, cd *inlineCand, nres int) *threadPlan {
@@ -1086,7 +1098,8 @@ func planThreading(info *types.Info, s *inlineSite, cd *inlineCand, nres int) *t
 	if !copyable {
 		return nil
 	}
-	plan := &threadPlan{ifs: ifs, failing: map[*ast.ReturnStmt]bool{}}
+	plan := &threadPlan{ifs: ifs, failing: map[*ast.ReturnStmt]bool{}, allDecided: true}
+	opposite := map[string]string{"nonnil": "nil", "nil": "nonnil", "true": "false", "false": "true"}
 	// classify the helper's exits
 	var stack []ast.Node
 	assignedIn := func(body *ast.BlockStmt, obj types.Object) bool {
@@ -1164,9 +1177,17 @@ func planThreading(info *types.Info, s *inlineSite, cd *inlineCand, nres int) *t
 			return false
 		}
 		stack = append(stack, n)
-		if rs, ok := n.(*ast.ReturnStmt); ok && len(rs.Results) == nres {
-			if classify(rs.Results[idx]) == want {
+		if rs, ok := n.(*ast.ReturnStmt); ok {
+			got := ""
+			if len(rs.Results) == nres {
+				got = classify(rs.Results[idx])
+			}
+			switch {
+			case got == want:
 				plan.failing[rs] = true
+			case got != "" && got == opposite[want]:
+			default:
+				plan.allDecided = false
 			}
 		}
 		return true
